@@ -55,8 +55,127 @@ class _Explode(ast.NodeTransformer):
         return out
 
 
+class _FoldConstIf(ast.NodeTransformer):
+    """`if c: v = K1` / `else: v = K2` (one plain name, two constants) -> `v = K1 if c else K2`"""
+    def visit_If(self, n):
+        self.generic_visit(n)
+        if len(n.body) == 1 and len(n.orelse) == 1 and all(
+                isinstance(s, ast.Assign) and len(s.targets) == 1 and isinstance(s.targets[0], ast.Name)
+                and isinstance(s.value, ast.Constant) for s in (n.body[0], n.orelse[0])) \
+                and n.body[0].targets[0].id == n.orelse[0].targets[0].id \
+                and not any(isinstance(x, ast.NamedExpr) for x in ast.walk(n.test)):
+            a = ast.Assign(targets=[n.body[0].targets[0]],
+                           value=ast.IfExp(test=n.test, body=n.body[0].value, orelse=n.orelse[0].value),
+                           type_comment=None)
+            ast.copy_location(a, n)
+            return a
+        return n
+
+
 def _explode_parallel(tree):
-    return ast.fix_missing_locations(_Explode().visit(tree))
+    tree = ast.fix_missing_locations(_Explode().visit(tree))
+    _unflag_returns(tree)
+    tree = _FoldConstIf().visit(tree)
+    return ast.fix_missing_locations(tree)
+
+
+def _unflag_returns(tree):
+    """normal form: the result flag of a decision chain is turned back into returns:
+           F = None
+           if c1: ...; F = e1
+           elif c2: ...; F = e2
+           if F is not None: return R(F)
+       becomes `if c1: ...; return R(e1)  elif c2: ...; return R(e2)` when every e_i is certainly not None (a call
+       of a class, or a name x that an earlier branch of the chain excluded with `not x` / `x is None`) and F
+       occurs nowhere else in the function."""
+    import copy as _copy
+    for fn in ast.walk(tree):
+        if not isinstance(fn, (ast.FunctionDef, ast.AsyncFunctionDef)):
+            continue
+        for holder in ast.walk(fn):
+            for fld in ('body', 'orelse', 'finalbody'):
+                stmts = getattr(holder, fld, None)
+                if not isinstance(stmts, list):
+                    continue
+                i = 0
+                while i + 2 < len(stmts) + 0 and i + 2 <= len(stmts) - 1:
+                    s0, s1, s2 = stmts[i], stmts[i + 1], stmts[i + 2]
+                    ok = isinstance(s0, ast.Assign) and len(s0.targets) == 1 and isinstance(s0.targets[0], ast.Name) \
+                        and isinstance(s0.value, ast.Constant) and s0.value.value is None and isinstance(s1, ast.If) \
+                        and isinstance(s2, ast.If) and not s2.orelse and len(s2.body) == 1 \
+                        and isinstance(s2.body[0], ast.Return) and s2.body[0].value is not None
+                    if not ok:
+                        i += 1
+                        continue
+                    F = s0.targets[0].id
+                    t = s2.test
+                    if not (isinstance(t, ast.Compare) and len(t.ops) == 1 and isinstance(t.ops[0], ast.IsNot)
+                            and isinstance(t.left, ast.Name) and t.left.id == F
+                            and isinstance(t.comparators[0], ast.Constant) and t.comparators[0].value is None):
+                        i += 1
+                        continue
+                    # the chain
+                    branches = []
+                    node = s1
+                    excluded = set()
+                    good = True
+                    while True:
+                        branches.append((node, set(excluded)))
+                        tt = node.test
+                        if isinstance(tt, ast.UnaryOp) and isinstance(tt.op, ast.Not) and isinstance(tt.operand, ast.Name):
+                            excluded.add(tt.operand.id)
+                        elif isinstance(tt, ast.Compare) and len(tt.ops) == 1 and isinstance(tt.ops[0], ast.Is) \
+                                and isinstance(tt.left, ast.Name) and isinstance(tt.comparators[0], ast.Constant) \
+                                and tt.comparators[0].value is None:
+                            excluded.add(tt.left.id)
+                        if len(node.orelse) == 1 and isinstance(node.orelse[0], ast.If):
+                            node = node.orelse[0]
+                            continue
+                        if node.orelse:
+                            good = False
+                        break
+                    uses_elsewhere = 0
+                    for x in ast.walk(fn):
+                        if isinstance(x, ast.Name) and x.id == F:
+                            uses_elsewhere += 1
+                    n_here = 1 + 1 + sum(1 for x in ast.walk(s2.body[0]) if isinstance(x, ast.Name) and x.id == F)
+                    vals = []
+                    for node, excl in branches:
+                        last = node.body[-1] if node.body else None
+                        if not (isinstance(last, ast.Assign) and len(last.targets) == 1 and isinstance(last.targets[0], ast.Name)
+                                and last.targets[0].id == F):
+                            good = False
+                            break
+                        if any(isinstance(x, ast.Name) and x.id == F for st_ in node.body[:-1] for x in ast.walk(st_)):
+                            good = False
+                            break
+                        e = last.value
+                        nonnull = False
+                        if isinstance(e, ast.Call):
+                            nm = e.func.attr if isinstance(e.func, ast.Attribute) else getattr(e.func, 'id', '')
+                            nonnull = nm[:1].isupper()
+                        elif isinstance(e, ast.Name):
+                            nonnull = e.id in excl
+                        if not nonnull:
+                            good = False
+                            break
+                        vals.append((node, e))
+                        n_here += 1
+                    if not good or uses_elsewhere != n_here:
+                        i += 1
+                        continue
+                    for node, e in vals:
+                        ret = _copy.deepcopy(s2.body[0])
+
+                        class _R(ast.NodeTransformer):
+                            def visit_Name(self, n):
+                                return _copy.deepcopy(e) if n.id == F else n
+                        ret = _R().visit(ret)
+                        ast.copy_location(ret, node.body[-1])
+                        node.body[-1] = ret
+                    del stmts[i + 2]
+                    del stmts[i]
+                    i += 1
 
 
 class Mod:
